@@ -24,6 +24,7 @@ type c12In struct {
 	Shape    int       `json:"shape"` // 0 hammer, 1 child creation racing with the end of the parent
 	Tasks    [][]c12Op `json:"tasks"`
 	ChildIso bool      `json:"child_isolated"` // shape 1: created children have an isolated context
+	Observers int      `json:"observers,omitempty"` // shape 0: tasks blocked on Done() that read Err() when woken
 }
 
 func c12Gen(r *Rand, tier string) interface{} {
@@ -40,6 +41,9 @@ func c12Gen(r *Rand, tier string) interface{} {
 			l = append(l, c12Op{ops[r.Intn(len(ops))]})
 		}
 		in.Tasks = append(in.Tasks, l)
+	}
+	if in.Shape == 0 && r.Chance(1, 2) {
+		in.Observers = 1 + r.Intn(2)
 	}
 	if in.Shape == 1 {
 		in.Kind = 0
@@ -72,6 +76,7 @@ func c12Run(inI interface{}, env *Env) *Failure {
 		failed         bool // err/kill executed on target
 		post           *Failure
 		childClosed    int
+		observed       int
 	)
 	res := env.Sim(SimOpts{MaxSteps: 20000, FairSteps: 20000}, func() {
 		parent = scope.New(scope.Params{Name: "p"})
@@ -81,6 +86,34 @@ func c12Run(inI interface{}, env *Env) *Failure {
 			target = scope.NewChild(parent, scope.ChildParams{Name: "shared"})
 		case 2:
 			target = scope.NewChild(parent, scope.ChildParams{Name: "iso", ContextScope: contextscope.NewIsolated(parent.BaseContextScope())})
+		}
+		// done observers: blocked on Done(); when the signal arrives they ask the accessors.
+		// If no actor ever calls Stop, the signal can only have been caused by an appended
+		// error or a kill, so the accessors must already report one.
+		hasStop := false
+		for _, ops := range in.Tasks {
+			for _, op := range ops {
+				if op.Op == "stop" {
+					hasStop = true
+				}
+			}
+		}
+		quit := make(chan struct{})
+		var obsWG simrt.WaitGroup
+		obsWG.Add(in.Observers)
+		for oi := 0; oi < in.Observers; oi++ {
+			oi := oi
+			simrt.GoNamed(fmt.Sprintf("observer%d", oi), func() {
+				defer obsWG.Done()
+				i, _, _ := simrt.Select(false, simrt.RecvCase(target.Done()), simrt.RecvCase(quit))
+				if i != 0 {
+					return
+				}
+				observed++
+				if e, n := target.Err(), len(target.Errors()); !hasStop && (e == nil || n == 0) && post == nil {
+					post = failf("C12/done-without-error", "", "a task woken by the done signal read Err()=%v and %d Errors() although nothing but AppendError/Kill can have ended this scope", e, n)
+				}
+			})
 		}
 		var wg simrt.WaitGroup
 		wg.Add(len(in.Tasks))
@@ -123,6 +156,12 @@ func c12Run(inI interface{}, env *Env) *Failure {
 			})
 		}
 		wg.Wait()
+		simrt.PreNB(quit)
+		close(quit)
+		obsWG.Wait()
+		if post != nil {
+			return
+		}
 		// quiescence reached: judge
 		has := func(list []error, e error) bool {
 			for _, x := range list {
@@ -184,6 +223,9 @@ func c12Run(inI interface{}, env *Env) *Failure {
 	if res.Decisions > 0 {
 		env.Count("nontrivial")
 	}
+	if observed > 0 {
+		env.CountN("probe.observer-woken-by-done", observed)
+	}
 	if childClosed > 0 {
 		env.CountN("probe.child-created-and-closed", childClosed)
 	}
@@ -221,6 +263,11 @@ func c12Shrink(inI interface{}) []interface{} {
 		c.Kind = 0
 		out = append(out, c)
 	}
+	if in.Observers > 0 {
+		c := cp()
+		c.Observers--
+		out = append(out, c)
+	}
 	return out
 }
 
@@ -232,7 +279,7 @@ func init() {
 		New:    func() interface{} { return &c12In{} },
 		Run:    c12Run,
 		Shrink: c12Shrink,
-		Rule: "one case = (scope kind, 2-6 actor scripts over AppendError/Kill/Stop/IsDone/Err/Errors or child create+close) x one seeded schedule; " +
+		Rule: "one case = (scope kind, 2-6 actor scripts over AppendError/Kill/Stop/IsDone/Err/Errors or child create+close; 0-2 done observers blocked on Done() that read the accessors when woken) x one seeded schedule; " +
 			"non-trivial = at least one scheduling decision with more than one runnable task; distinct = distinct (input, decision sequence)",
 		Real:        []string{"app/scope (Scope, NewChild)", "app/scope/contextscope (ContextScope, Isolated incl. its watcher goroutine)", "app/scope/eventscope", "app/scope/datascope"},
 		Stub:        []string{"sync primitives -> simrt", "scheduler -> seeded baton scheduler", "clock -> fake clock"},
